@@ -64,7 +64,7 @@ def asbool(a):
             return np.bool_(bool(a[()]))
         if a.size == 0:
             return np.zeros(a.shape, dtype=bool)
-        return _truth_uf(a).astype(bool)
+        return np.ndarray.astype(_truth_uf(a).view(np.ndarray), bool)
     return a.astype(bool)
 
 
@@ -959,11 +959,17 @@ def accumarray(group_idx, a, func="sum", size=None, fill_value=0, dtype=None, ax
 # scipy.sparse stand-in -------------------------------------------------------
 
 
+def _is_ij(x):
+    if isinstance(x, tuple):
+        return len(x) == 2
+    return isinstance(x, (np.ndarray, list)) and len(x) == 2 and np.ndim(x) == 2
+
+
 class SymCOO:
     """COO triple store with the part of the scipy.sparse contract pyttb uses."""
 
     def __init__(self, arg1, shape=None, dtype=None):
-        if isinstance(arg1, tuple) and len(arg1) == 2 and isinstance(arg1[1], tuple):
+        if isinstance(arg1, tuple) and len(arg1) == 2 and _is_ij(arg1[1]):
             data, (row, col) = arg1
             self.data = wrap(np.asarray(data, dtype=object).ravel())
             self.row = np.asarray(row, dtype=np.intp).ravel()
@@ -1062,7 +1068,7 @@ class _COOMeta(type):
         return isinstance(inst, SymCOO) or isinstance(inst, _real_sparse().coo_matrix)
 
     def __call__(cls, arg1, shape=None, dtype=None, **kw):
-        data = arg1[0] if isinstance(arg1, tuple) and len(arg1) == 2 and isinstance(arg1[1], tuple) else arg1
+        data = arg1[0] if isinstance(arg1, tuple) and len(arg1) == 2 and _is_ij(arg1[1]) else arg1
         if _has_sym(data) or SPARSE_ALWAYS_SYM[0]:
             return SymCOO(arg1, shape=shape)
         return _real_sparse().coo_matrix(arg1, shape=shape, dtype=dtype, **kw)
